@@ -48,6 +48,19 @@ ObsOf(line, pre, post) ==
 \* components of the post-state that the scan determines
 PostPart(gs) == [api |-> gs.api, asg |-> gs.asg, pc |-> gs.pc, ctl |-> gs.ctl, accepted |-> gs.accepted]
 
+\* a scan that died at a crash point: what was recorded must be the prefix of an admissible scan (the band decision is not
+\* observable, so every admissible one is tried); controller memory is gone and is not compared
+CrashMismatch(line, pre, post, obs) ==
+  LET F == FaultSet(line)
+      gLast == LastScanned(line)
+      probe == RunOnce(pre, {f \in F : f.op # "crash"}, obs)
+      nds == IF gLast \in DOMAIN pre.groups THEN probe.res[gLast].ndSet ELSE {0}
+      cands == {RunOnce(pre, F, [obs EXCEPT ![gLast].nd = d]) : d \in nds}
+      fits(e) == /\ e.crash /\ e.calls = line.calls
+                 /\ \A g \in DOMAIN pre.groups : e.W.groups[g].api = post.groups[g].api /\ e.W.groups[g].asg = post.groups[g].asg
+  IN (IF gLast \in DOMAIN pre.groups /\ \E e \in cands : fits(e) THEN {} ELSE {"crash-prefix"})
+     \cup (IF line.panic \/ line.hang \/ line.exit THEN {"panic-hang-exit"} ELSE {})
+
 Mismatch(line, pre, post, exp) ==
   LET gs == DOMAIN pre.groups
       perGroup == UNION {{IF exp.W.groups[g].api # post.groups[g].api THEN "post.api" ELSE "ok",
@@ -75,7 +88,7 @@ CheckLine(i) ==
       post == NormWorld(line.post)
       obs == ObsOf(line, pre, post)
       exp == RunOnce(pre, FaultSet(line), obs)
-      mm == Mismatch(line, pre, post, exp)
+      mm == IF line.crash THEN CrashMismatch(line, pre, post, obs) ELSE Mismatch(line, pre, post, exp) \cup (IF exp.crash THEN {"crash-expected"} ELSE {})
       viol == Violations(line, pre, post, exp)
   IN /\ IF mm = {} THEN TRUE ELSE PrintT(ToJson([kind |-> "DIVERGENCE", line |-> i, src |-> line.src, id |-> line.id, what |-> mm,
                                   branches |-> Branches(exp),
